@@ -160,7 +160,7 @@ def job_runs(ctx, jr, seeds, depth, size):
         lines = render(fns, main, sp, rnd)
         jr.samples.append(' | '.join(lines))
         for c1, c2, alen in itertools.product(['true', 'false'], ['true', 'false'], [0, 1, 2]):
-            e = ctx.engine(unwind=200, max_rec=8); e.int_digits = 2
+            e = ctx.engine(unwind=1500, max_rec=8); e.int_digits = 2      # a cap on fetch/execute iterations, far above any generated program's run
             e.hooks['utils::state::put_handle'] = hook_put_handle
             e.hooks['std::sync::atomic::Atomic::<bool>::load'] = lambda eng, st1, a, c: False
             t0 = time.time()
